@@ -24,7 +24,7 @@ TRUSTED = ["CPython ast parser", "sa.consteval (codec tables)", "lzma/bz2/pyppmd
 SIZE_PRESERVING = {"COPY": "output length = input length", "7zAES": "block cipher: output length = input length (+ padding < 16)"}
 
 
-def r20_1(ctx: Ctx) -> None:
+def r20_1(ctx: Ctx, rule: str = "R20.1") -> None:
     try:
         methods = ctx.ce.class_const("SupportedMethods", "methods")
         amap = ctx.ce.module_const("compressor", "algorithm_class_map")
@@ -55,15 +55,15 @@ def r20_1(ctx: Ctx) -> None:
                                                          for call in inner)
             # or the class bounds its own output with an internal buffer
             bounded_self = ml is not None and any(isinstance(x, ast.Subscript) and isinstance(x.slice, ast.Slice) and any(isinstance(y, ast.Name) and y.id == ml for y in ast.walk(x.slice)) for x in walk(d.node))
-            ctx.check(fwd or bounded_self, "R20.1", d, d.node, f"{cn}.decompress honours max_length",
+            ctx.check(fwd or bounded_self, rule, d, d.node, f"{cn}.decompress honours max_length",
                       f"{cn}.decompress ignores its max_length parameter: one input block of an expanding codec ({m['name']}) is decoded in full, so a highly compressible member "
                       "makes a single call return (and park) output in proportion to the compression ratio", construct=f"{cn}.decompress ignores max_length")
-    ctx.floor("R20.1", n, 4, "decoder classes of expanding methods")
+    ctx.floor(rule, n, 4, "decoder classes of expanding methods")
     # the chain passes max_length on to every stage
     f = ctx.prog.func("compressor", "SevenZipDecompressor._decompress")
     calls = [c for c in q.calls(f) if attr_tail(c) == "decompress"]
     ok = bool(calls) and all(len(c.args) >= 2 and norm(c.args[1]) == f.params[2] for c in calls)
-    ctx.check(ok, "R20.1", f, calls[0] if calls else f.node, "the chain passes max_length to every stage", "SevenZipDecompressor._decompress does not pass max_length to the stages")
+    ctx.check(ok, rule, f, calls[0] if calls else f.node, "the chain passes max_length to every stage", "SevenZipDecompressor._decompress does not pass max_length to the stages")
 
 
 def r20_2(ctx: Ctx) -> None:
